@@ -31,7 +31,7 @@ Definition empty_cont : container := mkcont [] 0.
 
 (* bulk:  bc.tasks = append(bc.tasks, task); return len(bc.tasks) >= bc.maxTasks
    chunk: bc.tasks = append(..); bc.size += ck.size; return bc.size >= bc.maxChunkSize *)
-Definition bulk_full (maxTasks : Z) (tasks : list nat) : bool := Z.of_nat (length tasks) >=? maxTasks.
+Definition bulk_full {A} (maxTasks : Z) (tasks : list A) : bool := Z.of_nat (length tasks) >=? maxTasks.
 Definition chunk_full (maxChunk : Z) (size : Z) : bool := size >=? maxChunk.
 
 Definition add_task (cf : config) (c : container) (x : nat) : container * bool :=
